@@ -102,6 +102,10 @@ pub struct World {
     pub ops_text: Vec<String>,
     pub cover: crate::cover::Coverage,
     pub skipped: usize,
+    /// A monitor found a strongly reachable object destructed / released: the rest of the sequence
+    /// would run on freed memory, so it is abandoned (callbacks are left, the arenas dropped) and
+    /// the verdict survives instead of dying with the process.
+    pub abandon: bool,
 }
 
 enum RootRef<'a, 'gc> {
@@ -271,6 +275,7 @@ impl World {
             ops_text: vec![],
             cover: Default::default(),
             skipped: 0,
+            abandon: false,
         }
     }
 
@@ -283,6 +288,7 @@ impl World {
         self.arenas.clear();
         alloc::reset();
         self.violations.clear();
+        self.abandon = false;
         self.op_index = 0;
         self.ops_text.clear();
     }
@@ -440,6 +446,9 @@ impl World {
             self.cover.bump(format!("monitor|{n}"));
         }
         for v in out {
+            if v.property == "C01" && v.what.contains("while strongly reachable") {
+                self.abandon = true;
+            }
             self.violations.push((self.op_index, v, format!("op {ai} {op}")));
         }
         self.op_index += 1;
@@ -452,7 +461,8 @@ impl World {
 
     /// Top-level loop: ops outside callbacks.
     pub fn run(&mut self, src: &mut dyn Source) {
-        while let Some((ai, op)) = src.next(self) {
+        while !self.abandon {
+            let Some((ai, op)) = src.next(self) else { break };
             self.top_op(ai, op, src);
         }
     }
@@ -875,7 +885,8 @@ impl World {
     /// Ops inside a callback, until `leave`.  Returns the pre-state of the `leave` op.
     fn callback_loop<'gc>(&mut self, ai: usize, cb: &mut CbCtx<'_, 'gc>, src: &mut dyn Source) -> (Pre, bool) {
         loop {
-            let Some((ai2, op)) = src.next(self) else {
+            let next = if self.abandon { None } else { src.next(self) };
+            let Some((ai2, op)) = next else {
                 // source exhausted inside a callback: leave normally
                 let op = Op::Leave { panic: false };
                 self.write_op(ai, &op);
